@@ -324,6 +324,25 @@ struct forest
         return false;
       }
     }
+    // same pre-order value sequence, different shape: every node but the root hung flat under the root
+    if (msize(m) >= 3)
+    {
+      M flat{m.v, {}};
+      for (std::size_t i = 1; i < expect.size(); ++i) flat.kids.push_back(M{expect[i], {}});
+      if (!(flat == m) && (build(flat) == ct || !(build(flat) != ct)))
+      {
+        fail("tree|comparison|same-values-different-shape", "tree " + show(m) + " compares equal to " + show(flat) + " (same pre-order values, different shape)");
+        return false;
+      }
+      // and the chain: every node the only child of its predecessor
+      M chain{expect.back(), {}};
+      for (std::size_t i = expect.size() - 1; i-- > 0;) chain = M{expect[i], {chain}};
+      if (!(chain == m) && (build(chain) == ct || !(build(chain) != ct)))
+      {
+        fail("tree|comparison|same-values-different-shape", "tree " + show(m) + " compares equal to " + show(chain) + " (same pre-order values, different shape)");
+        return false;
+      }
+    }
     ltree const mapped = fcppt::container::tree::map<ltree>(ct, [](int const v) { return static_cast<long>(v) * 2 + 1; });
     {
       std::vector<long> mv;
@@ -455,8 +474,25 @@ struct forest
     case 17:
     {
       std::size_t const ia = static_cast<std::size_t>(x % nodes.size()), ib = static_cast<std::size_t>(y % nodes.size());
-      if (ia == ib || is_ancestor_or_self(nodes, ia, ib) || is_ancestor_or_self(nodes, ib, ia)) break;
+      if (ia == ib) break;
+      // Domain: a and b unrelated, or (assignments only) b a proper descendant of a - "replace a node
+      // by one of its sub-trees". The implementation supports that by first moving / copying the
+      // source's children into a temporary list; the source is destroyed together with a's old
+      // children. The opposite direction (assigning an ancestor to its descendant) and swapping
+      // related nodes would create a cycle and are outside the domain.
+      bool const b_below_a = is_ancestor_or_self(nodes, ia, ib);
+      if (is_ancestor_or_self(nodes, ib, ia)) break;
+      if (b_below_a && op == 13) break;
       node_ref const o = nodes[ib];
+      if (b_below_a)
+      {
+        cls(op == 16 ? "copy-assign-from-descendant" : "move-assign-from-descendant");
+        deep_op = true;
+        M const src = *o.m; // the model of the source, taken before a's children (and the source) go away
+        if (op == 16) t = static_cast<tree const &>(*o.t); else t = std::move(*o.t);
+        m = src;
+        break;
+      }
       if (op == 16 && total() + msize(*o.m) > max_nodes + 20) break;
       if (deep || (o.level >= 1 && !o.m->kids.empty())) deep_op = true;
       if (n.level >= 1 || o.level >= 1) cls(op == 13 ? "swap-involving-child" : op == 16 ? "copy-assign-involving-child" : "move-assign-involving-child");
